@@ -230,3 +230,34 @@ func sortedStrings(m map[string]bool) []string {
 	sort.Strings(o)
 	return o
 }
+
+// retVals: the values a Return yields, looking through the result cells go/ssa spills to when the
+// function has defers (stores, rundefers, loads, return — all in the returning block).
+func retVals(r *ssa.Return) []ssa.Value {
+	out := make([]ssa.Value, len(r.Results))
+	for k, res := range r.Results {
+		out[k] = res
+		ld, ok := res.(*ssa.UnOp)
+		if !ok || ld.Op != token.MUL {
+			continue
+		}
+		cell, ok := ld.X.(*ssa.Alloc)
+		if !ok {
+			continue
+		}
+		// last store to the cell in this block before the load
+		var last ssa.Value
+		for _, i := range r.Block().Instrs {
+			if i == ssa.Instruction(ld) {
+				break
+			}
+			if s, ok := i.(*ssa.Store); ok && s.Addr == cell {
+				last = s.Val
+			}
+		}
+		if last != nil {
+			out[k] = last
+		}
+	}
+	return out
+}
